@@ -41,6 +41,8 @@ T = {
             "User functions are a small library defined once in TLA+ and once in Rust; TLC checks machine vs reference under these oracles; real parsers must agree and every recorded extern call must be one the specification makes.", "the mirrored library (PegValues.tla / oracles.rs) is the oracle", "4 C14"),
     "C15": (MC, "TLC evaluation of CompileFront!Verdict (one predicate per documented restriction, include-cycle detection) + every case through the three doors in isolated processes",
             "The restriction table is a TLA+ predicate over grammars-as-data; TLC evaluates the verdict for every corpus grammar (and checks it against the generator's intent); each grammar goes through the library, Compile::run and peginator-cli in its own process (panic, stack overflow, hang, exit status, Result observed); seeded mutations, truncations and deep nestings check totality on arbitrary strings.", "totality on arbitrary strings is sampled, not enumerated; deep nesting (>= ~1500 levels) overflows the front end's stack: recorded as known findings", "4 C15"),
+    "C17": (MC, "three bootstrap stages built for real and both front ends run on text corpora; the observation sequence validated by TLC against Bootstrap.tla",
+            "Stage 1 is generated by the tree's generator from grammar.ebnf, a generator is built around it in a scratch copy and stage 2 generated; TLC accepts the recorded observations iff shipped = stage 1 = stage 2 (header aside) and every text (valid, invalid, mutated, all repository grammars) is read to the same Debug tree or the same error by the shipped and the regenerated front end. That both front ends denote what grammar.ebnf says is C12's Meta run.", "thin trace specification (equality of digests); rustfmt normalises layout", "4 C17"),
     "C18": (MC, "TLC over all histories of the BuildScript protocol (intended and implementation-shaped) + replay of every history against the real Compile",
             "The file protocol {edit grammar, change prefix, delete destination, run} is model-checked for Fresh / Untouched / FailSafe in its intended form; the implementation-shaped form (run_on_single_file line by line) may deviate only in the two recorded findings (TLC must still find the flaw); every TLC history is replayed against the real Compile in a scratch directory (file / explicit destination / directory mode, formatting off and on) and the predicates are evaluated on the real files after every run.", "expected bytes come from a fresh library compilation; directory mode replayed with one grammar file; two known findings (known_findings.json)", "4 C18"),
     "C19": (MC, "TLC Balanced invariant + NestingMonitor trace validation of real ParseTracer callbacks; parse_with_trace vs parse",
